@@ -243,6 +243,68 @@ func mustEvents(call ssa.CallInstruction, tag func(ssa.Instruction) string, dept
 			if t := tag(in); t != "" {
 				out = append(out, Event{Instr: call, Tag: t})
 			}
+			for _, t := range syncClosureTags(in, tag) {
+				out = append(out, Event{Instr: call, Tag: t})
+			}
+		}
+	}
+	return out
+}
+
+// SyncRunClosure: the closure literal that a library runner executes before it returns — sync.Once.Do (by the time Do
+// returns the closure has run, now or earlier) and golib errors.PanicToError — or nil.
+func SyncRunClosure(in ssa.Instruction) *ssa.Function {
+	call, ok := in.(*ssa.Call)
+	if !ok {
+		return nil
+	}
+	o := CalleeObj(call)
+	if o == nil || o.Pkg() == nil {
+		return nil
+	}
+	full := o.Pkg().Path() + "." + o.Name()
+	if !(full == "github.com/fatedier/golib/errors.PanicToError" || (o.Pkg().Path() == "sync" && o.Name() == "Do")) {
+		return nil
+	}
+	for _, a := range call.Call.Args {
+		if mc, ok := a.(*ssa.MakeClosure); ok {
+			if cf, ok := mc.Fn.(*ssa.Function); ok {
+				return cf
+			}
+		}
+	}
+	return nil
+}
+
+// syncClosureTags: the tags of the instructions that execute on every path of a synchronously run closure literal.
+func syncClosureTags(in ssa.Instruction, tag func(ssa.Instruction) string) []string {
+	cf := SyncRunClosure(in)
+	if cf == nil || len(cf.Blocks) == 0 {
+		return nil
+	}
+	var rets []*ssa.BasicBlock
+	for _, b := range cf.Blocks {
+		if len(b.Instrs) > 0 {
+			if _, ok := b.Instrs[len(b.Instrs)-1].(*ssa.Return); ok {
+				rets = append(rets, b)
+			}
+		}
+	}
+	var out []string
+	for _, b := range cf.Blocks {
+		all := len(rets) > 0
+		for _, r := range rets {
+			if !b.Dominates(r) {
+				all = false
+			}
+		}
+		if !all {
+			continue
+		}
+		for _, x := range b.Instrs {
+			if t := tag(x); t != "" {
+				out = append(out, t)
+			}
 		}
 	}
 	return out
